@@ -55,7 +55,15 @@ def run(ctx, config='rel-all'):
                     src = chase(b, a['place']['l'])
                     if src is not None and src != k + 1:
                         okargs = False
-            if okargs:
+            # the forwarded result is what the caller gets (no short-circuit or post-processing around the call)
+            okret = True
+            if okargs and (m.get('output') or '()') != '()':
+                I2, r2 = arena.run_fn(ctx, b['id'], config)
+                fe = [e for e in r2.events if len(e.stack) == 1 and e.kind == 'call' and (e.extra.get('callee') or {}).get('trait') == tr and (e.extra.get('callee') or {}).get('name') == name]
+                okret = len(fe) == 1 and r2.ret == fe[0].ret
+            if okargs and not okret:
+                ctx.violation('R2', fn, 'forward-result', '%s does not return exactly the result of the forwarded %s::%s (the boxed value must compare / format / iterate as the value does, for every value)' % (fn, tr.split('::')[-1], name), b.get('span'))
+            elif okargs:
                 ctx.ok('R2', '%s forwards to %s::%s with parameters in order' % (fn, tr.split('::')[-1], name), 'single call, same trait, same name')
             else:
                 ctx.violation('R2', fn, 'forward-arg-order', '%s forwards to %s::%s with permuted parameters' % (fn, tr.split('::')[-1], name), b.get('span'))
@@ -187,8 +195,10 @@ def run(ctx, config='rel-all'):
     for b in bd:
         I, r = arena.run_fn(ctx, b['id'], config)
         d = [e for e in r.events if e.kind == 'drop_in_place']
-        if len(d) == 1 and 'Box.0' in repr(d[0].args[0]):
-            ctx.ok('R3', 'Drop for Box is drop_in_place(self.0)', 'term')
+        g = db.cfg(b)
+        every_path = bool(d) and not (set(g.returns()) & g.reach([0], avoid_blocks=[e.block for e in d if len(e.stack) == 1]))
+        if len(d) == 1 and 'Box.0' in repr(d[0].args[0]) and every_path:
+            ctx.ok('R3', 'Drop for Box is drop_in_place(self.0) on every path', 'term + must-pass-through')
         else:
             ctx.violation('R3', 'Box::drop', 'drop-target', 'Drop for Box does not drop exactly its pointee once', b.get('span'))
     if not bd:
